@@ -65,6 +65,20 @@ pub fn test_case(case: &TrainCase) -> TestResult {
     let mut w = vec![];
     model.write(&mut w).map_err(|e| format!("write of the trained model: {e}"))?;
     ensure!(w == bytes, "write and to_vec of the trained model differ");
+    // ... also into a writer that takes only part of each buffer (a compressor, a pipe)
+    for chunk in [1usize, 7, 4096, 131072] {
+        if chunk > 7 && bytes.len() <= chunk {
+            continue;
+        }
+        let mut sw = util::ShortWriter { written: vec![], chunk };
+        model.write(&mut sw).map_err(|e| format!("write into a writer accepting {chunk} bytes per call: {e}"))?;
+        ensure!(
+            sw.written == bytes,
+            "write() into a writer accepting {chunk} bytes per call reports success after {} of {} bytes",
+            sw.written.len(),
+            bytes.len()
+        );
+    }
     let reread = Model::read(bytes.as_slice()).map_err(|e| format!("re-reading the trained model: {e}"))?;
     ensure!(reread.to_vec().map_err(|e| e.to_string())? == bytes, "re-read trained model serialises differently");
     // only weights within the signed 16-bit range
@@ -147,7 +161,7 @@ fn case_strategy() -> impl Strategy<Value = TrainCase> {
 
 /// Corpora around the representation limits: one token (also a dictionary word and a tagged,
 /// ambiguous token) of `word_len` characters, in sentences of `word_len` + 4 characters.
-fn long_word_case(word_len: usize, k: usize) -> TrainCase {
+pub fn long_word_case(word_len: usize, k: usize) -> TrainCase {
     use vcommon::oracle::RefSentence;
     let alphabet: [char; 5] = if k % 2 == 0 { ['a', 'b', 'c', 'd', 'e'] } else { ['火', 'あ', '𠀋', 'ア', 'é'] };
     let word: Vec<char> = (0..word_len).map(|i| alphabet[(i * i + i / 3) % 5]).collect();
@@ -193,6 +207,136 @@ fn long_word_case(word_len: usize, k: usize) -> TrainCase {
     }
 }
 
+/// The README path through the shipped `train` program: corpus / dictionary files -> train ->
+/// model.zst. The program may refuse a configuration or a corpus with an error status; it must
+/// not crash, and a model file it writes must be usable like any returned model.
+pub fn test_tool(case: &TrainCase) -> TestResult {
+    use vcommon::oracle::{self, RefSentence};
+    let cfg = &case.cfg;
+    let dir = util::Scratch::new("c11");
+    let (ftok, fpart, fdict, fmodel) = (dir.path("c.tok"), dir.path("c.part"), dir.path("d.txt"), dir.path("m.zst"));
+    let (mut tok, mut part, mut dict) = (String::new(), String::new(), String::new());
+    for r in &case.corpus {
+        if r.labels.contains(&UNK) {
+            part.push_str(&oracle::ref_write_partial(r));
+            part.push('\n');
+        } else {
+            tok.push_str(&oracle::ref_write_tokenized(r));
+            tok.push('\n');
+        }
+    }
+    for w in &cfg.dict {
+        let cs: Vec<char> = w.chars().collect();
+        if cs.is_empty() {
+            continue;
+        }
+        let r = RefSentence { labels: vec![NB; cs.len() - 1], tags: vec![vec![]; cs.len()], n_tags: 0, chars: cs };
+        dict.push_str(&oracle::ref_write_tokenized(&r));
+        dict.push('\n');
+    }
+    for r in &case.tag_dict {
+        let mut r = r.clone();
+        r.labels.iter_mut().for_each(|l| if *l == UNK { *l = WB });
+        dict.push_str(&oracle::ref_write_tokenized(&r));
+        dict.push('\n');
+    }
+    let mut args: Vec<String> = vec![];
+    let mut datasets = 0;
+    for (flag, path, content) in [("--tok", &ftok, &tok), ("--part", &fpart, &part)] {
+        if !content.is_empty() {
+            std::fs::write(path, content).map_err(|e| e.to_string())?;
+            args.push(flag.into());
+            args.push(path.to_string_lossy().to_string());
+            datasets += 1;
+        }
+    }
+    if datasets == 0 {
+        // the program requires a dataset: an empty tokenized corpus file
+        std::fs::write(&ftok, "").map_err(|e| e.to_string())?;
+        args.push("--tok".into());
+        args.push(ftok.to_string_lossy().to_string());
+    }
+    if !dict.is_empty() {
+        std::fs::write(&fdict, &dict).map_err(|e| e.to_string())?;
+        args.push("--dict".into());
+        args.push(fdict.to_string_lossy().to_string());
+    }
+    for (flag, v) in [("--charw", cfg.charw), ("--charn", cfg.charn), ("--typew", cfg.typew), ("--typen", cfg.typen), ("--dictn", cfg.dictn.max(1)), ("--solver", cfg.solver % 8)] {
+        args.push(flag.into());
+        args.push(v.to_string());
+    }
+    let no_norm = cfg.solver % 2 == 1;
+    if no_norm {
+        args.push("--no-norm".into());
+    }
+    args.push("--model".into());
+    args.push(fmodel.to_string_lossy().to_string());
+    let r = util::run_tool("train", &args, b"")?;
+    ensure!(
+        !r.stderr.contains("panicked"),
+        "train crashed (args {:?}): {}",
+        &args[..args.len() - 2],
+        r.stderr.lines().find(|l| l.contains("panicked")).unwrap_or("")
+    );
+    ensure!(r.code.is_some(), "train was killed by a signal (args {:?})", &args[..args.len() - 2]);
+    let info = Info::new(cfg.charw != cfg.typew || cfg.charn > cfg.charw || cfg.typen > cfg.typew || [cfg.charw, cfg.charn, cfg.typew, cfg.typen].contains(&0))
+        .class(no_norm, "--no-norm")
+        .class(!part.is_empty(), "--part")
+        .class(!dict.is_empty(), "--dict");
+    if r.code != Some(0) {
+        return Ok(info.class(true, "train-exits-with-error"));
+    }
+    let z = std::fs::read(&fmodel).map_err(|e| format!("train exits with 0 but wrote no model: {e}"))?;
+    let raw = util::zstd_decode(&z)?;
+    let (model, rest) = Model::read_slice(&raw).map_err(|e| format!("the model written by train cannot be read: {e}"))?;
+    ensure!(rest.is_empty(), "the model file written by train has {} trailing bytes", rest.len());
+    let spec = ModelSpec::from_model(&model)?;
+    let all = spec
+        .char_ngrams
+        .iter()
+        .flat_map(|g| g.weights.iter())
+        .chain(spec.type_ngrams.iter().flat_map(|g| g.weights.iter()))
+        .chain(spec.dict.iter().flat_map(|d| d.weights.iter()))
+        .chain(spec.tag_models.iter().flat_map(|t| t.bias.iter()))
+        .chain(std::iter::once(&spec.bias));
+    for &w in all {
+        ensure!(in_i16(w), "the model written by train holds the weight {w} outside the 16-bit range");
+    }
+    let (m2, _) = Model::read_slice(&raw).map_err(|e| e.to_string())?;
+    let p0 = Predictor::new(model, false).map_err(|e| format!("Predictor::new(model written by train, false): {e}"))?;
+    let p1 = Predictor::new(m2, true).map_err(|e| format!("Predictor::new(model written by train, true): {e}"))?;
+    let mut texts = case.eval.clone();
+    texts.push("未知の文字列xyz 123".into());
+    for text in &texts {
+        let mut s = Sentence::from_raw(text.clone()).map_err(|e| e.to_string())?;
+        p0.predict(&mut s);
+        util::check_consistent(&util::observe(&s))?;
+        p1.predict(&mut s);
+        s.fill_tags();
+        util::check_consistent(&util::observe(&s))?;
+    }
+    Ok(info.class(true, "train-wrote-model").class(!spec.tag_models.is_empty(), "model-has-tag-models"))
+}
+
+/// A dictionary whose trained model decodes to `n_words * word_len * 5` bytes and more (every
+/// dictionary word of k characters stores k + 1 weights): models of the size real dictionaries
+/// give, which no small corpus reaches.
+fn big_dictionary_case(n_words: usize, word_len: usize) -> TrainCase {
+    let mut base = long_word_case(40, 0);
+    let mut x: u64 = 0x9e3779b97f4a7c15;
+    for _ in 0..n_words {
+        let w: String = (0..word_len)
+            .map(|_| {
+                x = x.wrapping_mul(6364136223846793005).wrapping_add(1442695040888963407);
+                (b'a' + ((x >> 33) % 26) as u8) as char
+            })
+            .collect();
+        base.cfg.dict.push(w);
+    }
+    base.cfg.dictn = 4;
+    base
+}
+
 pub fn run(rep: &mut Report) {
     liblinear::toggle_liblinear_stdout_output(false);
     let _guard = util::redirect_output("/verif/target/C11-train-output.log");
@@ -204,6 +348,15 @@ pub fn run(rep: &mut Report) {
             .into_iter()
             .enumerate()
             .flat_map(|(k, l)| [long_word_case(l, k), long_word_case(l, k + 1)]),
+        test_case,
+    );
+    let (nw, wl) = if rep.n(0, 1) == 1 { (3000usize, 30000usize) } else { (700usize, 30000usize) };
+    rep.run_enum(
+        "big-dictionary",
+        "one training run with a dictionary of 700 (thorough: 3,000) words of 30,000 characters: \
+the returned model decodes to more than 100 MB (thorough: 450 MB); same clauses as train-total",
+        false,
+        std::iter::once(big_dictionary_case(nw, wl)),
         test_case,
     );
     let n = rep.n(20000, 1000000);
@@ -220,6 +373,17 @@ Non-trivial = differing windows, n > window, a zero parameter or a degenerate co
         n,
         case_strategy,
         test_case,
+    );
+    let n = rep.n(1500, 40000);
+    rep.run_prop(
+        "train-tool",
+        "the same generated configurations and corpora through the shipped train program \
+(--tok / --part / --dict files, all size flags, all solvers, with and without --no-norm): the \
+program never crashes; when it exits with 0 the zstd model it wrote is readable, has only 16-bit \
+weights, is accepted by Predictor::new with and without tags and predicts + tags generated texts",
+        n,
+        case_strategy,
+        test_tool,
     );
     rep.assume("a liblinear hang is mapped to exit 2 by the engine watchdog (no case finishing for 300 s)");
 }
